@@ -46,6 +46,8 @@ Rewrite rules (each application is counted per function and reported in the evid
   R19 `//@fmtlit ID "LITERAL"` declares a format string; in a unit with such declarations `writeln!(w, LITERAL, a, b, ..)` / `write!(w, LITERAL, ..)` becomes
       `fmtlog::lineN(w, ID, a, b, ..)` (prelude-style seam: appends (ID, rendered arguments) to the sink's ghost line log); an
       undeclared literal in such a unit is an extraction error (undecided), so a changed format string cannot pass unnoticed
+  R20 `for (i, PAT) in EXPR.enumerate() { BODY }` -> `let mut i: usize = 0; for PAT in EXPR { BODY i += 1; }`: the counter of
+      `enumerate` becomes an explicit counter incremented at the end of the body (only for bodies without continue/break/return)
   R18 `| where K: Ord`: a supertrait bound of the real trait (`Kmer: ... + Ord`) that the Verus-side seam trait does not carry
       is restated on the extracted function as a where clause (no executable effect)
   R15 `//@stmts file | container | fn | from "a" | to "b"`: a contiguous statement range of a function body
@@ -389,6 +391,43 @@ def apply_rewrites(body, counts):
         edits.append((m.start(), m.end(), "for r17_ in"))
         edits.append((i + 1, i + 1, " let %s = *r17_; /*R17*/" % m.group(1)))
         counts["R17"] = counts.get("R17", 0) + 1
+    # R20 `for (i, PAT) in EXPR.enumerate() {` -> `let mut i: usize = 0; for PAT in EXPR { BODY i += 1; }` - the counter of `enumerate`
+    # becomes an explicit counter incremented at the end of the body (Verus has no specification for Enumerate). Only for bodies
+    # without `continue` / `break` / `return`, where "end of the body" is the only way to the next iteration.
+    for m in re.finditer(r"\bfor\s+\(\s*(\w+)\s*,\s*(\w+|&\([^()]*\))\s*\)\s+in\b", body):
+        if not mask[m.start()]:
+            continue
+        i = m.end()
+        depth = 0
+        while i < len(body):
+            if mask[i]:
+                ch = body[i]
+                if ch in "([":
+                    depth += 1
+                elif ch in ")]":
+                    depth -= 1
+                elif ch == "{" and depth == 0:
+                    break
+            i += 1
+        hdr = body[m.end():i]
+        me = re.search(r"\.enumerate\(\)\s*$", hdr)
+        if not me:
+            continue
+        close = match_brace(body, mask, i)
+        inner = body[i + 1:close]
+        if re.search(r"\b(continue|break|return)\b", "".join(ch if mask[i + 1 + k] else " " for k, ch in enumerate(inner))):
+            raise ExtractError("R20: enumerate loop body contains continue/break/return")
+        cnt, pat = m.group(1), m.group(2)
+        if pat.startswith("&"):
+            # the item pattern is itself a reference pattern: rule R17 applied on top (copy the tuple out of the reference)
+            edits.append((m.start(), m.end(), "let mut %s: usize = 0; /*R20*/ for r17_ in" % cnt))
+            edits.append((i + 1, i + 1, " let %s = *r17_; /*R17*/" % pat[1:]))
+            counts["R17"] = counts.get("R17", 0) + 1
+        else:
+            edits.append((m.start(), m.end(), "let mut %s: usize = 0; /*R20*/ for %s in" % (cnt, pat)))
+        edits.append((m.end() + me.start(), m.end() + me.end(), " "))
+        edits.append((close, close, " %s += 1; /*R20*/ " % cnt))
+        counts["R20"] = counts.get("R20", 0) + 1
     # R13 `use crate::...;` inside a body: dropped (the unit's prelude provides the name)
     for m in re.finditer(r"\buse\s+crate::[\w:]+\s*;", body):
         if mask[m.start()]:
